@@ -166,6 +166,7 @@ func (ex *Exec) doCall(v *ssa.Call, c *ssa.CallCommon, pos token.Pos) {
 			if _, have := ex.vals[v]; !have {
 				ex.vals[v] = result
 			}
+			ex.afterCallGhost(v, c)
 		}
 	}()
 	setResult := func(r Val) {
@@ -485,7 +486,7 @@ func (ex *Exec) staticCall(v *ssa.Call, c *ssa.CallCommon, callee *ssa.Function,
 	spec := ex.vc.w.Contracts.Funcs[key]
 	isSelf := origin == ex.topFn()
 	if spec != nil && (!spec.Inline || isSelf) {
-		return ex.contractCall(key, spec, origin, ts, c, args, pos)
+		return ex.contractCall(key, spec, origin, ts, c, args, pos, clo)
 	}
 	// inline: module functions without loops (or closures), bounded depth
 	if origin.Blocks != nil && ex.depth < 6 && (isModuleFunc(origin) || origin.Parent() != nil) && !ex.onStack(origin) {
@@ -620,13 +621,16 @@ func (ex *Exec) inlineCall(key string, callee *ssa.Function, ts TSubst, clo *ssa
 }
 
 // contractCall: assert requires, havoc modifies, assume ensures.
-func (ex *Exec) contractCall(key string, spec *FuncSpec, callee *ssa.Function, ts TSubst, c *ssa.CallCommon, args []Val, pos token.Pos) Val {
+func (ex *Exec) contractCall(key string, spec *FuncSpec, callee *ssa.Function, ts TSubst, c *ssa.CallCommon, args []Val, pos token.Pos, clo *ssa.MakeClosure) Val {
 	ex.vc.usedSpecs[key] = true
 	if spec.Extern || spec.Trusted {
 		ex.vc.externs[key] = true
 	}
 	ex.callOrd[callee.Name()]++
 	ord := ex.callOrd[callee.Name()]
+	if o, ok := ex.callOrdOf[c]; ok {
+		ord = o
+	}
 	pre := ex.curState
 	ev := ex.newEval(pre, pre)
 	ev.ts = ts
@@ -635,6 +639,26 @@ func (ex *Exec) contractCall(key string, spec *FuncSpec, callee *ssa.Function, t
 	for i, p := range callee.Params {
 		if i < len(args) {
 			ev.vars[p.Name()] = TV{T: args[i].T, Ty: goVT(ts.apply(p.Type())), Loc: args[i].Loc}
+		}
+	}
+	// captured variables of a closure under contract: their values at the call (read from the shared cells)
+	if clo != nil {
+		for i, fv := range callee.FreeVars {
+			if i >= len(clo.Bindings) {
+				break
+			}
+			b := ex.val(clo.Bindings[i])
+			if b.Loc != nil {
+				ev.vars[fv.Name()] = TV{T: ex.loadLocNoPerm(pre, b.Loc), Ty: goVT(b.Loc.Ty)}
+				continue
+			}
+			if pt, ok := ts.apply(fv.Type()).Underlying().(*types.Pointer); ok && b.T != "" {
+				if isAggregate(pt.Elem()) {
+					ev.vars[fv.Name()] = TV{T: b.T, Ty: goVT(pt.Elem()), Addr: true}
+				} else {
+					ev.vars[fv.Name()] = TV{T: ex.loadAt(pre, b.T, pt.Elem()), Ty: goVT(pt.Elem())}
+				}
+			}
 		}
 	}
 	// ghost arguments
@@ -836,6 +860,7 @@ func (ex *Exec) closureAxiom(mc *ssa.MakeClosure, id string) {
 		return
 	}
 	env := map[ssa.Value]string{}
+	envLoc := map[ssa.Value]*Loc{}
 	var bound []string
 	var argNames []string
 	for i, p := range fn.Params {
@@ -846,6 +871,9 @@ func (ex *Exec) closureAxiom(mc *ssa.MakeClosure, id string) {
 	}
 	for i, fv := range fn.FreeVars {
 		env[fv] = ex.val(mc.Bindings[i]).T
+		if l := ex.val(mc.Bindings[i]).Loc; l != nil {
+			envLoc[fv] = l
+		}
 	}
 	get := func(v ssa.Value) (string, bool) {
 		if t, ok := env[v]; ok {
@@ -871,7 +899,11 @@ func (ex *Exec) closureAxiom(mc *ssa.MakeClosure, id string) {
 				if isAggregate(pt) {
 					return
 				}
-				env[i] = ex.loadAt(ex.curState, x, pt)
+				if l := envLoc[i.X]; l != nil {
+					env[i] = ex.loadLocNoPerm(ex.curState, l)
+				} else {
+					env[i] = ex.loadAt(ex.curState, x, pt)
+				}
 			case token.NOT:
 				env[i] = sNot(x)
 			case token.SUB:
@@ -912,4 +944,36 @@ func (ex *Exec) closureAxiom(mc *ssa.MakeClosure, id string) {
 		return
 	}
 	ex.vc.assume(fmt.Sprintf("(forall (%s) (! (= %s %s) :pattern (%s)))", strings.Join(bound, " "), app, ret, app))
+}
+
+// afterCallGhost applies the `ghost-at callee#k:` updates of the function under verification right after the
+// k-th call (source order) of that callee. $ret / $ret0.. denote the value(s) the call returned.
+func (ex *Exec) afterCallGhost(v *ssa.Call, c *ssa.CallCommon) {
+	if ex.parent != nil || ex.vc.spec == nil || len(ex.vc.spec.AtCall) == 0 || ex.vc.scratch {
+		return
+	}
+	name := calleeName(c)
+	ord := ex.callOrdOf[c]
+	for _, a := range ex.vc.spec.AtCall {
+		if a.Callee != name || a.Ordinal != ord {
+			continue
+		}
+		idx := len(ex.curBlock.Instrs)
+		for i, ins := range ex.curBlock.Instrs {
+			if ins == ssa.Instruction(v) {
+				idx = i + 1
+			}
+		}
+		extra := map[string]TV{}
+		r := ex.vals[v]
+		rt := ex.typ(v.Type())
+		if tup, ok := rt.(*types.Tuple); ok {
+			for k := 0; k < tup.Len() && k < len(r.Tup); k++ {
+				extra[fmt.Sprintf("$ret%d", k)] = TV{T: r.Tup[k].T, Ty: goVT(tup.At(k).Type())}
+			}
+		} else if r.T != "" {
+			extra["$ret"] = TV{T: r.T, Ty: goVT(rt)}
+		}
+		ex.applyGhostUpdateX(a.Clause, ex.curState, &progPoint{block: ex.curBlock, idx: idx}, ex.curReach, extra)
+	}
 }
